@@ -1094,6 +1094,12 @@ class Reaction(Object):
         Reaction
             Returns the same reaction modified in place.
         """
+        if coefficient == 0:
+            # Zero coefficients are never kept: nothing is left of the reaction.
+            # This is not undone by scaling with 1 / coefficient either.
+            self.subtract_metabolites(self.metabolites, combine=True)
+            return self
+
         self._metabolites = {
             met: value * coefficient for met, value in self._metabolites.items()
         }
